@@ -136,11 +136,13 @@ class ConvSim(sim.SimHarness):
     max_paths = 50
     max_seconds = 800
 
-    def __init__(self, topo, duty, N, dt, kappa, a, b, level, tag=''):
+    def __init__(self, topo, duty, N, dt, kappa, a, b, level, tag='', legs=False):
         ctl = ('fixed', duty) if duty != 1 else None
-        super().__init__(topo, schedule=(('run', N),), control=ctl, dt=dt, props=('C04',), tag=tag)
+        # legs: the horizon is covered by two consecutive run() calls, the second one with dt in ms and T in sec
+        sched = (('run', N),) if not legs else (('run', N // 2), ('run', N - N // 2, 'ms', 1, 'sec'))
+        super().__init__(topo, schedule=sched, control=ctl, dt=dt, props=('C04',), tag=tag)
         self.N, self.kappa, self.a, self.b, self.level = N, kappa, a, b, level
-        self.name = 'conv:%s:duty=%s:N=%d:dt=%g' % (topo, duty, N, dt)
+        self.name = 'conv:%s:duty=%s:N=%d:dt=%g%s' % (topo, duty, N, dt, ':two_legs' if legs else '')
 
     def describe(self):
         d = super().describe()
@@ -205,6 +207,11 @@ class ConvSim(sim.SimHarness):
         for k in ks:
             if k < 1 or k >= n:
                 continue
+            # the closed form is evaluated at the instant the library REPORTS for sample k: it must be k*dt
+            tk = T(rec['time'][k])
+            tslack = z3.RealVal(dt * k * eps)
+            obs.append(holds('conv.reported_instant[k=%d]' % k, z3.And(tk - z3.RealVal(dt * k) <= tslack,
+                                                                       z3.RealVal(dt * k) - tk <= tslack)))
             Ek = exp_neg(kap * dt * k)
             wk = affine(T(E[L]['angular speed'][k]), ('om0', 'load', 'th0'))
             exact_w = w_inf + D * z3.RealVal(Ek)
@@ -285,17 +292,21 @@ def specs(tier, seed):
             dt = 2.0 ** math.floor(math.log2(0.2 / kappa))
             horizon = (3 if tier == 'quick' else rnd.choice([3, 4, 6])) / kappa
             N = max(4, int(round(horizon / dt)))
-            N = min(N, 16 if tier == 'quick' else 32)
+            N = min(N, 16)
             levels = 2 if tier == 'quick' else 3
             for level in range(levels):
                 S.append(('conv', t, duty, N * 2 ** level, dt / 2 ** level, kappa, a, b, level, seed))
             for level in range(levels - 1):
                 S.append(('twin', t, duty, N * 2 ** level, dt / 2 ** level, kappa, a, b, level, seed))
+            if t in ('T1', 'T3') and duty == 1:
+                S.append(('legs', t, duty, N, dt, kappa, a, b, 0, seed))
     return S
 
 
 def build(sp):
     kind, t, duty, N, dt, kappa, a, b, level, seed = sp
+    if kind == 'legs':
+        return ConvSim(t, duty, N, dt, kappa, a, b, level, legs=True)
     return (ConvTwin if kind == 'twin' else ConvSim)(t, duty, N, dt, kappa, a, b, level)
 
 
@@ -303,10 +314,10 @@ JOB_CAP = {'quick': 1200, 'thorough': 3000}
 REQUIRED_TRIGGERS = {'quick': ('conv.speed_within_bound', 'conv.position_within_bound', 'conv.error_roughly_halves')}
 BOUNDS = {
     'quick': 'chains T1,T2,T3,T5,T6 (concrete configuration), duty 1 (and 0.625, -0.75 with current data), dt = largest power '
-             'of two with kappa*dt <= 0.2 and its halving dt/2, horizon up to 3/kappa (N <= 16 and 32 steps), the pair (dt, dt/2) also simulated inside one exploration for the ratio test; the initial '
+             'of two with kappa*dt <= 0.2 and its halving dt/2, horizon up to 3/kappa (N <= 16 and 32 steps), the pair (dt, dt/2) also simulated inside one exploration for the ratio test; on T1 and T3 the horizon also covered by two consecutive run() calls (the second with dt in ms and T in sec); every checked sample must be reported at k*dt; the initial '
              'speed, initial position and the constant load are solver variables over [-1e9, 1e9] (loads below and above '
              'stall, either sign)',
-    'thorough': '10 seeded chains of 3..8 elements, horizons 3..6/kappa, halvings dt, dt/2, dt/4 (N <= 128)',
+    'thorough': '10 seeded chains of 3..8 elements, horizons 3..6/kappa, halvings dt, dt/2, dt/4 (N <= 16, 32, 64)',
 }
 OUTSIDE = ('the limit dt -> 0 itself (represented by 3-4 halvings); configurations and dt are sampled, not symbolic (a symbolic '
            'kappa*dt makes the trajectory a degree-N polynomial and the oracle transcendental); a scheme that is different but still '
